@@ -398,6 +398,18 @@ def rule_volume_extent(prog, fixture=False):
             x = strip_all(e)
             args = [c for c in x.get("c", []) if (strip(c) or {}).get("k") != "CXXDefaultArgExpr"]
             key = "%s::%s::%s" % (fn.relfile(), fn.qn, init.get("member"))
+            # the extent handed over as one braced record {first, count}
+            flat = []
+            for a_ in args:
+                sa_ = strip_all(a_)
+                for _ in range(3):
+                    if sa_ is not None and sa_.get("k") in ("CXXFunctionalCastExpr", "CXXConstructExpr", "CXXTemporaryObjectExpr",
+                                                            "CompoundLiteralExpr", "CXXBindTemporaryExpr") and len(sa_.get("c", [])) == 1:
+                        sa_ = strip_all(sa_["c"][0])
+                if sa_ is not None and sa_.get("k") == "InitListExpr" and len(sa_.get("c", [])) == 2:
+                    flat = list(sa_["c"])
+            if flat:
+                args = flat
             if len(args) < 2:
                 r.undecided.append("%s: unexpected Access construction" % fn.qn)
                 continue
